@@ -745,7 +745,12 @@ func (c *Ctx) c14Goroutines(loopFn *ssa.Function, copiers []*ssa.Function) {
 	}
 	// copier: no own loops
 	for _, cp := range copiers {
-		r.Check(len(flow.Loops(cp)) == 0, "R6", fname(cp)+":no-own-loop", c.fpos(cp), "the copier is a single io.Copy that ends when the source fails", "the copier contains a loop without a termination-dependent exit")
+		cl := flow.Loops(cp)
+		if len(cl) == 0 {
+			r.Ok("R6", fname(cp)+":copy-terminates", c.fpos(cp), "the copier is a single io.Copy that ends when the source fails")
+			continue
+		}
+		c.c14CopierLoops(cp, cl)
 	}
 	// watchdog-like goroutines: go targets in package sm (library) with loops
 	nW := 0
@@ -843,4 +848,100 @@ func selectCaseReturns(f *ssa.Function, sel *ssa.Select, si int, l *flow.Loop) b
 		return flow.PathAvoiding(f, first, func(in ssa.Instruction) bool { return in == head }, nil) == nil
 	}
 	return false
+}
+
+// c14CopierLoops: a hand-written copy loop is accepted when every cycle passes a Read on the
+// source whose error leaves the loop, and the bytes a Read returned are forwarded whether or not
+// the same Read also returned an error (io.Reader contract: n > 0 with err != nil is legal).
+func (c *Ctx) c14CopierLoops(cp *ssa.Function, loops []*flow.Loop) {
+	r := c.R
+	for i, l := range loops {
+		key := fmt.Sprintf("%s:loop#%d", fname(cp), i+1)
+		var read *ssa.Call
+		for b := range l.Blocks {
+			for _, in := range b.Instrs {
+				if call, ok := in.(*ssa.Call); ok && call.Call.IsInvoke() && call.Call.Method.Name() == "Read" {
+					read = call
+				}
+			}
+		}
+		if read == nil {
+			r.Fail("R6", key+"-reads-source", c.pos(l.Head.Instrs[0]), "a loop of the copier does not read from the source: it has no termination-dependent exit")
+			continue
+		}
+		head := l.Head.Instrs[0]
+		if p := flow.PathAvoiding(cp, head, func(in ssa.Instruction) bool { return in == head }, func(in ssa.Instruction) bool { return in == ssa.Instruction(read) }); p != nil && head != ssa.Instruction(read) {
+			r.Fail("R6", key+"-reads-source", c.pos(read), "a cycle of the copier loop does not pass the Read of the source")
+			continue
+		}
+		// error values derived from the read
+		var rerr, rn ssa.Value
+		for _, ref := range flow.Referrers(read) {
+			if ex, ok := ref.(*ssa.Extract); ok {
+				if isErrorType(ex.Type()) {
+					rerr = ex
+				} else {
+					rn = ex
+				}
+			}
+		}
+		errs := map[ssa.Value]bool{rerr: true}
+		changed := true
+		for changed {
+			changed = false
+			flow.Instrs(cp, func(in ssa.Instruction) {
+				if ph, ok := in.(*ssa.Phi); ok && !errs[ph] {
+					for _, e := range ph.Edges {
+						if errs[e] {
+							errs[ph] = true
+							changed = true
+						}
+					}
+				}
+			})
+		}
+		// some exit edge of the loop is the non-nil edge of a test on such an error
+		exits := false
+		for b := range l.Blocks {
+			ifi, ok := b.Instrs[len(b.Instrs)-1].(*ssa.If)
+			if !ok {
+				continue
+			}
+			for si, s := range b.Succs {
+				if l.Blocks[s] {
+					continue
+				}
+				rl, ok := condRel(ifi.Cond, si == 0)
+				if ok && rl.op == token.NEQ && ((errs[rl.a] && flow.IsNilConst(rl.b)) || (errs[rl.b] && flow.IsNilConst(rl.a))) {
+					exits = true
+				}
+			}
+		}
+		r.Check(exits, "R6", key+"-exits-on-read-error", c.pos(read), "every cycle reads the source and a non-nil read error leaves the loop", "the copier loop does not leave when the source read fails: the goroutine outlives the connection")
+		// forwarded bytes not conditional on the read's error
+		for b := range l.Blocks {
+			for _, in := range b.Instrs {
+				w, ok := in.(*ssa.Call)
+				if !ok {
+					continue
+				}
+				o := flow.CalleeObj(w)
+				if o == nil || o.Name() != "Write" {
+					continue
+				}
+				_ = rn
+				bad := false
+				for _, g := range flow.Guards(w) {
+					if !l.Blocks[g.If.Block()] {
+						continue
+					}
+					rl, ok := condRel(g.If.Cond, g.Taken)
+					if ok && rl.op == token.EQL && ((rl.a == rerr && flow.IsNilConst(rl.b)) || (rl.b == rerr && flow.IsNilConst(rl.a))) {
+						bad = true
+					}
+				}
+				r.Check(!bad, "R3", key+"-forwards-bytes-read-with-error", c.pos(w), "the bytes a Read returned are forwarded regardless of the error returned with them", "the copier forwards a chunk only when the Read returned no error: bytes delivered together with EOF/an error (legal for io.Reader, usual for TLS close_notify) are dropped — the last inbound message is lost once CloseNotify was requested")
+			}
+		}
+	}
 }
